@@ -40,7 +40,7 @@ class Experiment:
                          'Fluorescence Channels': ', '.join(d['fl']), 'Time Channel': d['time']})
         return pd.DataFrame(rows).set_index('ID')
 
-    def write_fcs(self, name, iid, kind='cells', n=600, voltage=450, log_fl=True, seed=0, linear_scatter=False):
+    def write_fcs(self, name, iid, kind='cells', n=600, voltage=450, log_fl=True, seed=0, linear_scatter=False, nonneg=False):
         d = self.inst[iid]
         r = np.random.RandomState(seed)
         names = [d['fsc'], d['ssc']] + d['fl'] + [d['time']]
@@ -68,7 +68,8 @@ class Experiment:
             ev = [[int(round(v)) for v in row] for row in data]
             widths = [16] * D
         else:
-            data[:, 2:2 + len(d['fl'])] -= 30 * (kind != 'beads')      # floats may be negative (background subtracted)
+            if not nonneg:
+                data[:, 2:2 + len(d['fl'])] -= 350 * (kind != 'beads')     # floats may be negative (background subtracted)
             ev = [[f32(v) for v in row] for row in data]
             widths = [32] * D
         pne = {}
